@@ -298,6 +298,8 @@ for _cp in _KIND:
         _sb = f"PEN_BID(1, n, p, {_kc}, collective_penalty_scale)"
         _pa = _PALPHA[_pp]("n", "p", _kp, "point_penalty_scale")
         _pb = f"PEN_BID({_KIND[_pp]}, n, p, {_kp}, point_penalty_scale)"
+        _ca = _PALPHA[_cp]("n", "p", _kc, "collective_penalty_scale")
+        _cb = f"PEN_BID({_KIND[_cp]}, n, p, {_kc}, collective_penalty_scale)"
         _tc, _tp = "collective_saving.ghost_tok", "point_saving.ghost_tok"
         contract(
             target=f"{MVP}::run_mvcapa", variant=f"{_cp}/{_pp}",
@@ -323,8 +325,12 @@ for _cp in _KIND:
                 "collective_argmax_k_sparse_penalty": _argmaxk("result[1]", _tc, _sa, _sb),
                 # point anomalies: ... minus the POINT penalty
                 "point_argmax_k_point_penalty": _argmaxk("result[2]", _tp, _pa, _pb),
+                # C03 for MVCAPA: re-evaluating the reported anomalies under the same (named, closed-form) penalties gives exactly the final score
+                "reevaluation": f"CG({_tc}, {_tp}, n) == LSUM('coll', result[1], len(result[1]), lambda x: PSC({_tc}, x[0], x[1], {_ca}, {_cb})) + "
+                                f"LSUM('pt', result[2], len(result[2]), lambda x: PSC({_tp}, x[0], x[0] + 1, {_pa}, {_pb}))",
             },
             ghost=[
+                ("after:opt_savings, collective_anomalies, point_anomalies = run_base_capa(*", "g_c0 = collective_anomalies\ng_p0 = point_anomalies"),
                 ("after:point_saving.fit(X)",
                  f"assume(CAPA_THEORY({_tc}, collective_alpha, arrid(collective_betas), {_tp}, point_alpha, arrid(point_betas), min_segment_length, max_segment_length, n))\n"
                  f"assume(CAPA_SUBADD({_tc}, collective_alpha, arrid(collective_betas), collective_alpha + vsum(collective_betas), min_segment_length, max_segment_length, n))"),
@@ -334,7 +340,19 @@ for _cp in _KIND:
                  f"assert forall(range(len(collective_anomalies)), lambda a: using(L_cumpen_ext({_tc}, collective_anomalies[a][0], collective_anomalies[a][1], "
                  f"sparse_alpha, arrid(sparse_betas), {_sb}, p), {_argmaxk('collective_anomalies', _tc, _sa, _sb, True)}))\n"
                  f"assert forall(range(len(point_anomalies)), lambda a: using(L_cumpen_ext({_tp}, point_anomalies[a][0], point_anomalies[a][1], "
-                 f"point_alpha, arrid(point_betas), {_pb}, p), {_argmaxk('point_anomalies', _tp, _pa, _pb, True)}))"),
+                 f"point_alpha, arrid(point_betas), {_pb}, p), {_argmaxk('point_anomalies', _tp, _pa, _pb, True)}))\n"
+                 # re-evaluation: from the arrays the dynamic programme used to the named sequences, from the interval lists to the returned triples
+                 f"assume(ARRID_DEF(collective_betas))\nassume(PEN_BID_DEF({_KIND[_cp]}, n, p, {_kc}, collective_penalty_scale))\n"
+                 f"assert using(AX_psc_ext({_tc}, collective_alpha, arrid(collective_betas), {_cb}, p), "
+                 f"LSUM_EXT('coll', g_c0, lambda x: PSC({_tc}, x[0], x[1], collective_alpha, arrid(collective_betas)), collective_anomalies, "
+                 f"lambda x: PSC({_tc}, x[0], x[1], {_ca}, {_cb})), "
+                 f"LSUM('coll', collective_anomalies, len(collective_anomalies), lambda x: PSC({_tc}, x[0], x[1], {_ca}, {_cb})) == "
+                 f"LSUM('coll', g_c0, len(g_c0), lambda x: PSC({_tc}, x[0], x[1], collective_alpha, arrid(collective_betas))))\n"
+                 f"assert using(AX_psc_ext({_tp}, point_alpha, arrid(point_betas), {_pb}, p), "
+                 f"LSUM_EXT('pt', g_p0, lambda x: PSC({_tp}, x[0], x[0] + 1, point_alpha, arrid(point_betas)), point_anomalies, "
+                 f"lambda x: PSC({_tp}, x[0], x[0] + 1, {_pa}, {_pb})), "
+                 f"LSUM('pt', point_anomalies, len(point_anomalies), lambda x: PSC({_tp}, x[0], x[0] + 1, {_pa}, {_pb})) == "
+                 f"LSUM('pt', g_p0, len(g_p0), lambda x: PSC({_tp}, x[0], x[0] + 1, point_alpha, arrid(point_betas))))"),
             ],
             props=["C16", "C03", "C04", "C15"],
         )
